@@ -160,7 +160,11 @@ def correspondence(ctx):
         ubm, g = mk_map(sc, max_fitting_steps=2, convergence_threshold=None)
         cur = pget(g)
         st = get_stats(sc, g)
-        res = core.impl(lambda: pget(g.fit(np.asarray(sc["x"]))))
+        xfit = np.asarray(sc["x"])
+        if len(meta) % 2 == 1 and len(xfit) >= 4:  # every other two-iteration fit trains from a Dask array (three row blocks)
+            import dask.array as da
+            xfit = da.from_array(xfit, chunks=(max(1, len(xfit) // 3), xfit.shape[1]))
+        res = core.impl(lambda: pget(g.fit(xfit)))
         lines1.append(line_for(sc, cur, st))
         meta.append((sc, res))
     outs1 = core.drive(lines1)
